@@ -421,6 +421,18 @@ func othersSame(a, b []poolObs, except int) bool {
 func oracleLock(h *lockHist, r *lockRun, kinds map[string]int) string {
 	staked := map[int]*big.Int{}   // stake moved in per client
 	returned := map[int]*big.Int{} // stake paid back per client
+	// rewards credited to each client's pool since its last collect / unlock, tracked from the
+	// reward transactions themselves (independent of the Reward field the pool carries around)
+	accrued := map[int]*big.Int{}
+	for _, p := range r.init {
+		accrued[p.Client] = bz(p.Reward)
+	}
+	acc := func(c int) *big.Int {
+		if accrued[c] == nil {
+			accrued[c] = new(big.Int)
+		}
+		return accrued[c]
+	}
 	add := func(m map[int]*big.Int, c int, v uint64) {
 		if m[c] == nil {
 			m[c] = new(big.Int)
@@ -447,6 +459,9 @@ func oracleLock(h *lockHist, r *lockRun, kinds map[string]int) string {
 		}
 		kinds[op.K+"-ok"]++
 		mine := findPool(pre, op.Client)
+		if op.K == "lock" && mine != nil && mine.Reward > 0 {
+			kinds["relock-with-uncollected-reward"]++
+		}
 		after := findPool(post, op.Client)
 		switch op.K {
 		case "lock":
@@ -471,6 +486,9 @@ func oracleLock(h *lockHist, r *lockRun, kinds map[string]int) string {
 			}
 			if !othersSame(pre, post, op.Client) || postRew != r.preRew[i] {
 				return "lock-changed-other-records"
+			}
+			if bz(after.Reward).Cmp(acc(op.Client)) != 0 {
+				return "lock-dropped-accrued-reward" // a re-stake must keep what the pool has earned
 			}
 			add(staked, op.Client, op.Value)
 		case "unlock":
@@ -507,6 +525,14 @@ func oracleLock(h *lockHist, r *lockRun, kinds map[string]int) string {
 			if gotMint.Cmp(wantMint) != 0 {
 				return "unlock-rewards-not-exact"
 			}
+			owed := new(big.Int).Set(acc(op.Client))
+			if op.Client == h.Wallet {
+				owed.Add(owed, bz(r.preRew[i]))
+			}
+			if gotMint.Cmp(owed) != 0 {
+				return "unlock-does-not-pay-accrued-rewards"
+			}
+			accrued[op.Client] = new(big.Int)
 			if !othersSame(pre, post, op.Client) {
 				return "unlock-changed-other-pools"
 			}
@@ -541,6 +567,14 @@ func oracleLock(h *lockHist, r *lockRun, kinds map[string]int) string {
 			if got.Cmp(want) != 0 {
 				return "collect-not-exact"
 			}
+			owedC := new(big.Int).Set(acc(op.Client))
+			if op.Client == h.Wallet {
+				owedC.Add(owedC, bz(r.preRew[i]))
+			}
+			if got.Cmp(owedC) != 0 {
+				return "collect-does-not-pay-accrued-rewards"
+			}
+			accrued[op.Client] = new(big.Int)
 			fallthrough
 		case "reward":
 			for _, p := range pre {
@@ -551,6 +585,15 @@ func oracleLock(h *lockHist, r *lockRun, kinds map[string]int) string {
 			}
 			if len(pre) != len(post) {
 				return op.K + "-changed-pool-set"
+			}
+			if op.K == "reward" {
+				for _, p := range pre {
+					q := findPool(post, p.Client)
+					if q.Reward < p.Reward {
+						return "reward-decreased-a-reward"
+					}
+					acc(p.Client).Add(acc(p.Client), bz(q.Reward-p.Reward))
+				}
 			}
 		}
 	}
@@ -683,6 +726,19 @@ func genLock(r *vh.Rand) *lockHist {
 	if r.Chance(1, 3) {
 		h.Reward = uint64(r.Intn(1000))
 	}
+	if r.Chance(1, 4) && h.MaxDel > 0 && h.VMax >= h.VMin+400 {
+		// stake, earn, stake again (not collected), unstake
+		c := r.Range(1, 5)
+		v1, v2 := h.VMin+uint64(r.Range(1, 100)), h.VMin+uint64(r.Range(1, 100))
+		b1, b2 := v1+1000, v2+1000
+		h.Ops = append(h.Ops, lockOp{K: "lock", Client: c, Value: v1, CBal: &b1, Ago: 5000},
+			lockOp{K: "reward", Value: uint64(r.Range(100, 5000))},
+			lockOp{K: "lock", Client: c, Value: v2, CBal: &b2, Ago: 5000})
+		if r.Bool() {
+			h.Ops = append(h.Ops, lockOp{K: "reward", Value: uint64(r.Range(100, 5000))})
+		}
+		h.Ops = append(h.Ops, lockOp{K: "unlock", Client: c})
+	}
 	n := r.Range(2, 10)
 	var lockers []int // clients that hold or tried to get a pool: unlock candidates
 	for _, ip := range h.Init {
@@ -733,6 +789,11 @@ func fixedLock() []*lockHist {
 				{K: "lock", Client: 3, Value: 50, CBal: b(5000), Ago: 5000}, {K: "lock", Client: 1, Value: 5, CBal: b(5000), Ago: 5000},
 				{K: "reward", Value: 1000}, {K: "collect", Client: 2}, {K: "unlock", Client: 1}, {K: "unlock", Client: 4},
 				{K: "lock", Client: 4, Value: 20, CBal: b(20), Ago: -5000}, {K: "unlock", Client: 4}, {K: "collect", Client: 50}}})
+		// re-stake with an uncollected reward, then unstake
+		out = append(out, &lockHist{Kind: k, VMin: 10, VMax: 1000, MaxDel: 3, RatioBits: ratio, Wallet: 50, MinLock: 100,
+			Ops: []lockOp{{K: "lock", Client: 1, Value: 100, CBal: b(5000), Ago: 5000}, {K: "lock", Client: 2, Value: 100, CBal: b(5000), Ago: 5000},
+				{K: "reward", Value: 1000}, {K: "lock", Client: 1, Value: 50, CBal: b(5000), Ago: 5000}, {K: "reward", Value: 500},
+				{K: "unlock", Client: 1}, {K: "collect", Client: 2}}})
 	}
 	return out
 }
